@@ -138,3 +138,57 @@ def b_key_strings(tier, rnd):
 @battery("small_ints")
 def b_small_ints(tier, rnd):
     return {"rule": "integers -40..40 and +-10^9", "cases": [(i,) for i in list(range(-40, 41)) + [10 ** 9, -10 ** 9]]}
+
+
+@battery("major15")
+def b_major15(tier, rnd):
+    return {"rule": "the 15 major keys", "exhaustive_upto": 15, "cases": [(k,) for k in KEYS30[0::2]]}
+
+
+@battery("key_init")
+def b_key_init(tier, rnd):
+    from mingus.core.keys import Key
+    ks = [c[0] for c in b_key_strings(tier, rnd)["cases"] if c[0]]
+    return {"rule": "Key.__init__ on a blank instance x (30 keys + names in both cases + malformed strings)",
+            "cases": [(Key.__new__(Key), k) for k in ks]}
+
+
+@battery("lists")
+def b_lists(tier, rnd):
+    cases = [([],), (["C"],), (["C", "E"],), (["C", "E", "G"],), ([1, 2, 3, 4, 5],), (["a"] * 4 + ["b"],)]
+    for n in range(0, 9):
+        cases.append(([rnd.choice(all_names(1)) for _ in range(n)],))
+    return {"rule": "lists of length 0..8 of names, ints and repeated elements", "cases": cases}
+
+
+def interval_shorthands(maxacc):
+    out = []
+    for d in "1234567":
+        for k in range(0, maxacc + 1):
+            out.append("#" * k + d)
+            if k:
+                out.append("b" * k + d)
+    return out
+
+
+@battery("name_shorthand_dir")
+def b_name_shorthand_dir(tier, rnd):
+    n = bound(tier, 3, 4)
+    shs = interval_shorthands(3) + ["#b3", "b#5", "b#b2", "8", "0", "x", "#", "b", "#x", "bb9", "33", "3#"]
+    names = all_names(n) + ["H", "c", "Cx"]
+    return {"rule": "names with <= %d accidentals (+3 malformed) x shorthands (<= 3 homogeneous accidentals + degree "
+                    "1..7, mixed prefixes, bad degrees) x {up, down}" % n,
+            "cases": [(a, s, u) for a in names for s in shs for u in (True, False)]}
+
+
+@battery("canon_name_shorthand")
+def b_canon_name_shorthand(tier, rnd):
+    return {"rule": "35 canonical names (<= 2 accidentals) x 35 shorthands (<= 2 accidentals + degree)",
+            "exhaustive_upto": 2, "cases": [(a, s) for a in canon_names(2) for s in interval_shorthands(2)]}
+
+
+@battery("canon_pairs")
+def b_canon_pairs(tier, rnd):
+    ns = canon_names(2)
+    return {"rule": "all ordered pairs of the 35 canonical names (<= 2 accidentals)", "exhaustive_upto": 2,
+            "cases": [(a, b) for a in ns for b in ns]}
